@@ -67,7 +67,7 @@ pub fn judge_file(prop: &str, family: &str, m: &LMovie, bytes: &[u8], mdat_paylo
                     Ok(Ok(o)) if o == want_off => {}
                     o => {
                         ok = false;
-                        l.violations.push(Violation::new(prop, "sample_offset", case()).obs(json!({"track": t.id, "sample": k, "got": format!("{:?}", o.map(|r| r.map_err(|e| e.to_string())))})).exp(json!(want_off)));
+                        l.violations.push_with("sample_offset", &[], || Violation::new(prop, "sample_offset", case()).obs(json!({"track": t.id, "sample": k, "got": format!("{:?}", o.map(|r| r.map_err(|e| e.to_string())))})).exp(json!(want_off)));
                         break;
                     }
                 }
@@ -84,11 +84,11 @@ pub fn judge_file(prop: &str, family: &str, m: &LMovie, bytes: &[u8], mdat_paylo
                 };
                 if let Some(c) = clause {
                     ok = false;
-                    l.violations.push(
+                    l.violations.push_with(c, &[], || {
                         Violation::new(prop, c, case())
                             .obs(json!({"track": t.id, "sample": k, "got": got.to_json()}))
-                            .exp(json!({"bytes": hex(&x.bytes[..x.bytes.len().min(16)]), "len": x.bytes.len(), "start": x.start, "dur": x.duration, "off": x.cts, "sync": x.sync})),
-                    );
+                            .exp(json!({"bytes": hex(&x.bytes[..x.bytes.len().min(16)]), "len": x.bytes.len(), "start": x.start, "dur": x.duration, "off": x.cts, "sync": x.sync}))
+                    });
                     break;
                 }
             } else {
@@ -135,7 +135,7 @@ pub fn judge_file(prop: &str, family: &str, m: &LMovie, bytes: &[u8], mdat_paylo
                 let same = matches!(&off, Ok(Ok(o)) if *o == mdat_payload_pos + x.rel_offset) && matches!(&got, Got::Some(g) if g.bytes == x.bytes && g.start == x.start && g.dur == x.duration && g.off == x.cts && g.sync == x.sync);
                 if !same {
                     ok = false;
-                    l.violations.push(Violation::new(prop, "lookup_depends_on_earlier_lookups", case()).obs(json!({"track": t.id, "sample": k, "offset": format!("{:?}", off.map(|r| r.map_err(|e| e.to_string()))), "got": got.to_json()})).exp(json!({"start": x.start, "dur": x.duration, "off": x.cts, "sync": x.sync})));
+                    l.violations.push_with("lookup_depends_on_earlier_lookups", &[], || Violation::new(prop, "lookup_depends_on_earlier_lookups", case()).obs(json!({"track": t.id, "sample": k, "offset": format!("{:?}", off.map(|r| r.map_err(|e| e.to_string()))), "got": got.to_json()})).exp(json!({"start": x.start, "dur": x.duration, "off": x.cts, "sync": x.sync})));
                     break;
                 }
             }
